@@ -66,9 +66,11 @@ def number_of(s):
     if t.startswith('-.') or t.startswith('.'):
         t = t.replace('.', '0.', 1)
     try:
-        return float(t)
+        v = float(t)
     except (ValueError, OverflowError):
         return math.nan
+    # the nearest double to the mathematical value 0 (also of "-0") is positive zero
+    return v if v != 0 else 0.0
 
 
 def xp_round(x):
